@@ -178,9 +178,31 @@ Theorem C20_usable_mutual_dial_v1_refuted :
     nth_error (bw (mrun false c sched)) 0 = Some WUnknown.
 Proof. exact C20_mutual_v1_refuted_stmt. Qed.
 Print Assumptions C20_usable_mutual_dial_v1_refuted.
-(* Not covered: A dialling B with a handshake of its own at the same time (two handshakes in
-   opposite directions); streams opened from notifier.Connected callbacks take the same path as
+(* A dialling B with a handshake of its own at the same time: see C20_usable_cross_dial.  Streams opened from notifier.Connected callbacks take the same path as
    MC/MO here (they need A's registry entry for B, which is what [a_ret] stands for). *)
+
+(* CROSS DIAL.  Both nodes call Connect at the same time: two handshakes in opposite directions,
+   each node with one registry entry and one record of handshakes in progress for the other, fed
+   by its inbound handler and by its own Connect; a Connect that finds the other node already
+   registered returns through the shortcut.  [xrun a b sched]: model/ConnectRace.v, section
+   "cross dial", under an arbitrary interleaving of the two Connects (XD1, XD2), the two handlers
+   (XR1, XR2), A's stream opens (XO) and B's wrappers (XW k).  Once A's Connect(B) has reported
+   success -- either way -- it named B's proven identity, no stream A opened is reset by B as
+   coming from an unknown peer, and what reached B's handlers carries A's proven identity.  The
+   statement for the streams B opens is this one with a and b exchanged (wrappers only observe).
+   Premise as in C20_usable.  Simplifications: the isConnected test and beginHandshake of a dialling
+   Connect are one step; the model is the current code (both brackets); progress (handled after
+   finitely many steps) is proved for the one-directional and the mutual-dial worlds only. *)
+Theorem C20_usable_cross_dial : forall (a b : node) (sched : list xwho) (id : ident),
+  ks_addr b = pid_addr b ->
+  ret1 (xrun a b sched) = Some id ->
+  (id = (pid_addr b, ptype b) /\ sig_addr b = Some (pid_addr b)) /\
+  Forall (fun s => s <> WUnknown /\ s <> WTorn /\
+                   forall j, s = WHandled j ->
+                             j = (pid_addr a, ptype a) /\ sig_addr a = Some (pid_addr a))
+         (sA (xrun a b sched)).
+Proof. exact C20_cross_stmt. Qed.
+Print Assumptions C20_usable_cross_dial.
 
 (* The wrapper as it was before the repair (no record of handshakes in progress, no waiting):
    two well-formed nodes and a schedule -- final write, return, open, lookup, then register --
